@@ -1,12 +1,14 @@
 /-
 C10 line-protocol driver (see harness/internal/c10/c10.go for the field list):
 
-  req <srvT> <cih> <strict> <hT> <omit> <remote> <tls> <host> <hdrs> <tbl>
+  req <srvT> <cih> <strict> <hT> <omit> <remote> <tls> <host> <hdrs> <tbl> <fails> <hops>
 
 `tbl` carries net/netip's answers for this case (every '%'-free substring of the remote
 address / a header value that `ParseAddr` accepts, its `String()`, and `Prefix.Contains`
 for each configured range); it instantiates the model's `Net` parameter.
-Answers: `ip=<hex> tp=<0|1> xff=<H> xfp=<H> xfh=<H>` | `ip=<hex> tp=<0|1> err` | `bad-op`.
+`fails` (0-2) upstream round trips fail and are retried; `hops` = reverse_proxy request header ops
+(0 none, 1 set an unrelated field, 2 delete X-Forwarded-Host).
+Answers: `ip=<hex> tp=<0|1> xff=<H> xfp=<H> xfh=<H>[ | xff=… xfp=… xfh=…]*` (one triple per attempt) | `ip=<hex> tp=<0|1> err` | `bad-op`.
 -/
 import CaddyModel.C10.Model
 
@@ -74,19 +76,28 @@ def showVal : Option (Option (List Bytes)) → String
   | some (some []) => "empty"
   | some (some vs) => ",".intercalate (vs.map Hex.encode)
 
-def showOut (o : Out) : String :=
+def showFwd (f : Fwd) : String :=
+  "xff=" ++ showVal f.xff ++ " xfp=" ++ showVal f.xfp ++ " xfh=" ++ showVal f.xfh
+
+def showOut (o : Out) (attempts : Option (List Fwd)) : String :=
   "ip=" ++ Hex.encode o.clientIP ++ " tp=" ++ (if o.trusted then "1" else "0") ++
-  (match o.fwd with
+  (match attempts with
    | none => " err"
-   | some f => " xff=" ++ showVal f.xff ++ " xfp=" ++ showVal f.xfp ++ " xfh=" ++ showVal f.xfh)
+   | some l => " " ++ " | ".intercalate (l.map showFwd))
+
+def parseSmall (s : String) : Option Nat :=
+  if s == "0" then some 0 else if s == "1" then some 1 else if s == "2" then some 2 else none
+
+def parseOps (s : String) : Option Ops :=
+  if s == "0" then some .none else if s == "1" then some .setOther else if s == "2" then some .delXFH else none
 
 def idxList (handler : Bool) (n : Nat) : List PIdx := (List.range n).map (fun i => ⟨handler, i⟩)
 
 def handle : List String → String
-  | ["req", srvT, cih, strict, hT, omitF, remote, tls, host, hdrs, tbl] =>
+  | ["req", srvT, cih, strict, hT, omitF, remote, tls, host, hdrs, tbl, failsF, hopsF] =>
     let srv : Option (Option Nat) := if srvT == "nil" then some none else (parseRanges srvT).map some
     let ci : Option (Option (List Bytes)) := if cih == "nil" then some none else (parseHexList cih).map some
-    let st : Option Nat := if strict == "0" then some 0 else if strict == "1" then some 1 else if strict == "2" then some 2 else none
+    let st : Option Nat := parseSmall strict
     let om : Option (Bool × Bool × Bool) :=
       match omitF.toList.map (fun c => parseBool c.toString) with
       | [some a, some b, some c] => some (a, b, c)
@@ -94,13 +105,14 @@ def handle : List String → String
     match srv, ci, st, parseRanges hT, om, Hex.decode remote, parseBool tls, Hex.decode host, parseHdrs hdrs with
     | some srv, some ci, some st, some nh, some (o1, o2, o3), some remote, some tls, some host, some wire =>
       let ns := match srv with | some n => n | none => 0
-      match parseTable ns nh tbl with
-      | none => "bad-op"
-      | some table =>
+      match parseTable ns nh tbl, parseSmall failsF, parseOps hopsF with
+      | some table, some fails, some ops =>
         let cfg : Cfg PIdx :=
           { srvTrusted := srv.map (idxList false), clientIPHeaders := ci, strict := st,
             handlerTrusted := idxList true nh, omitXFF := o1, omitXFP := o2, omitXFH := o3 }
         showOut (serve (tableNet table) cfg ⟨remote, tls, host⟩ wire)
+          (serveAttempts (tableNet table) cfg ⟨remote, tls, host⟩ wire ops fails)
+      | _, _, _ => "bad-op"
     | _, _, _, _, _, _, _, _, _ => "bad-op"
   | _ => "bad-op"
 
